@@ -51,7 +51,7 @@ var (
 // ---------- cases ----------
 
 type c04Fault struct {
-	Kind string `json:"kind"`           // none | io | cancel | lnclose | gater | rcmgr
+	Kind string `json:"kind"`           // none | io | cancel | lnclose | connclose | gater | rcmgr | cancelcall
 	Side string `json:"side,omitempty"` // out | in: the raw end whose op index triggers, resp. the side whose gater / resource manager is scripted
 	K    int    `json:"k"`              // I/O operation index on that end, resp. n-th call
 	What string `json:"what,omitempty"` // I/O fault name, gater hook, resource-manager call kind
@@ -261,6 +261,8 @@ func c04InStage(in *memtpt.Side, accepted int) string {
 	switch {
 	case accepted > 0:
 		return "accepted"
+	case len(in.Muxer.Conns()) > 0:
+		return "upgraded" // the inbound upgrade completed but Accept never returned the connection
 	case rc[memnet.CallSetPeer] > 0:
 		return "setpeer"
 	case ga[memnet.HookSecured] > 0:
@@ -385,6 +387,22 @@ func c04RunInBubble(cs c04Case, res *c04Result) {
 	case "rcmgr":
 		sides[sideOf(f.Side)].RM.Refuse(f.What, f.K)
 	}
+	var cancel0 context.CancelFunc
+	if f.Kind == "cancelcall" {
+		// cancel the outbound context at the moment the side makes its K-th call of a gater hook /
+		// resource-manager entry point
+		hook := func(what string, n int) {
+			if what == f.What && n == f.K {
+				h.trace("fault: cancel outbound ctx at %s call %s#%d", f.Side, what, n)
+				h.mu.Lock()
+				res.Fired = true
+				h.mu.Unlock()
+				cancel0()
+			}
+		}
+		sides[sideOf(f.Side)].RM.SetOnCall(hook)
+		sides[sideOf(f.Side)].Gater.SetOnCall(hook)
+	}
 	dialTimeout := 20 * time.Second
 	if cs.Variant.ShortDial {
 		dialTimeout = 10 * time.Second
@@ -406,8 +424,12 @@ func c04RunInBubble(cs c04Case, res *c04Result) {
 			AddrA: ma.StringCast(fmt.Sprintf("/ip4/10.1.1.1/tcp/%d", 4001+10*i)), AddrB: c04AddrIn})
 		atts[i] = a
 	}
-	ctx0, cancel0 := context.WithTimeout(context.Background(), dialTimeout)
+	var ctx0 context.Context
+	ctx0, cancel0 = context.WithTimeout(context.Background(), dialTimeout)
 	atts[0].cancel = cancel0
+	// connections as the harness learns about them (for the "connclose" fault)
+	var liveMu sync.Mutex
+	var liveConn [2]transport.CapableConn
 	ends := [2]*memnet.Conn{atts[0].cOut, atts[0].cIn}
 	switch f.Kind {
 	case "io":
@@ -432,6 +454,25 @@ func c04RunInBubble(cs c04Case, res *c04Result) {
 				cancel0()
 			}
 		})
+	case "connclose":
+		// Close() of the upgraded connection of that side, racing with whatever is in flight when the
+		// side's raw end reaches op K (nothing happens if that side has no upgraded connection yet)
+		ends[sideOf(f.Side)].SetOnOp(func(op memnet.Op) {
+			if op.Index != f.K {
+				return
+			}
+			liveMu.Lock()
+			c := liveConn[sideOf(f.Side)]
+			liveMu.Unlock()
+			if c == nil {
+				return
+			}
+			h.mu.Lock()
+			res.Fired = true
+			h.mu.Unlock()
+			h.trace("fault: %s connection Close() at its op %d", f.Side, f.K)
+			go func() { h.trace("fault: Close returned %v", c.Close()) }()
+		})
 	case "lnclose":
 		ends[sideOf(f.Side)].SetOnOp(func(op memnet.Op) {
 			if op.Index == f.K {
@@ -455,6 +496,11 @@ func c04RunInBubble(cs c04Case, res *c04Result) {
 					return
 				}
 				h.trace("Accept: connection from %s", c.RemotePeer())
+				liveMu.Lock()
+				if liveConn[1] == nil {
+					liveConn[1] = c
+				}
+				liveMu.Unlock()
 				go c04Serve(h, c)
 				accepted <- c
 			}
@@ -503,6 +549,11 @@ func c04RunInBubble(cs c04Case, res *c04Result) {
 				return
 			}
 			a.stage = "ok"
+			if i == 0 {
+				liveMu.Lock()
+				liveConn[0] = a.conn
+				liveMu.Unlock()
+			}
 		}()
 		if i+1 < len(atts) {
 			synctest.Wait() // dial one after the other: deterministic arrival order
@@ -634,6 +685,19 @@ func c04RunInBubble(cs c04Case, res *c04Result) {
 			key := "scope-usage-not-restored/" + s.Name
 			if scn.ForcePNet {
 				key += "/force-pnet"
+			}
+			if i == 1 {
+				// inbound connections whose upgrade completed, that the harness never got from Accept and
+				// whose session is closed: the only code that could still release them is the listener
+				dropped := 0
+				for _, mc := range in.Muxer.Conns() {
+					if mc.IsClosed() {
+						dropped++
+					}
+				}
+				if n := len(in.Muxer.Conns()) - len(inConns); n > 0 && dropped >= n && after.System.NumConnsInbound == n {
+					key += "/upgraded-conn-closed-before-accept"
+				}
 			}
 			h.vio(key, "%s side: resource usage did not return to its previous value after the attempt was over and everything was closed: %s",
 				s.Name, strings.Join(d, "; "))
